@@ -2,4 +2,5 @@
 import FmtModel.Generated.Assets
 import FmtModel.Generated.Esc
 import FmtModel.Generated.Fmt
+import FmtModel.Generated.State
 import FmtModel.Generated.Ver
